@@ -372,7 +372,7 @@ def run_waiter(params, obs):
     # every started transfer got a finished signal
     path = wt.end.path
     for tid in tids:
-        fin = [ev for ev in sim.hist.events if ev['kind'] == 'signal' and ev['path'] == path and ev['member'] == 'send_bundle_finished' and str(ev['args'][0]) == tid]
+        fin = [ev for ev in sim.hist.events if ev['kind'] == 'signal' and ev['path'] == path and ev['member'] == 'send_bundle_finished' and str(ev['args'][0]) == tid and ev.get('exported', True)]
         if both_terms and wt.end_sock.closed and len(fin) != 1:
             problems.append(('finished-count', 'transfer %s has %d send_bundle_finished signals after the session ended' % (tid, len(fin))))
     return problems
